@@ -11,7 +11,7 @@ import oracles
 LEVEL = "proof"
 
 
-def retained(g, pre, roots):
+def retained(g, pre, roots, opaque_out=None):
     """(everything retained, the part of it retained in the role of a manifest): closure of the roots over
     references, plus (recursively) the artifacts listed as referrers of manifests retained as manifests"""
     R, RM = set(), set()
@@ -29,10 +29,12 @@ def retained(g, pre, roots):
             work.append(a)
         if m:
             for r in m["refs"]:
-                if m["kind"] == "index":
-                    work.append(r)          # children are manifests
+                if m["kind"] == "index" and r not in (m.get("opaque") or []):
+                    work.append(r)          # children are manifests (unless listed under a media type that is not a manifest type)
                 else:
                     R.add(r)                # config and layers are plain blobs, whatever else their bytes are
+                    if m["kind"] == "index" and opaque_out is not None:
+                        opaque_out.add(r)   # an index entry of another media type: kept as a blob, but it is an entry of the walk
     return R, RM
 
 
@@ -71,6 +73,11 @@ def oracle(ctx, case, io):
             such index survives: d is no retention root of its own (finding F35)"""
             parents = [x for x, m in gg["man"].items() if m["kind"] == "index" and d in m["refs"]]
             return bool(parents) and not any(post["man"].get(x, (0,))[0] == 200 for x in parents) and d not in [v for v in rstate[k][0].values()]
+        def opaque_listed(d):
+            """d (a manifest) is also listed by some pushed index under a media type that is not a manifest type: the entry the
+            in-memory child list keeps for it can carry that media type, and it then no longer resolves as a manifest once
+            index.json is re-read (finding F50)"""
+            return any(d in (m.get("opaque") or []) for m in gg["man"].values())
         nroots_tagged = len(roots)
         if (pol.get("grace_ms") or 3600000) >= 0:
             # a pushed manifest younger than the grace period is retained, with everything it references
@@ -80,8 +87,9 @@ def oracle(ctx, case, io):
         R, RM = retained(gg, pre, roots)
         for d in sorted(R):
             if lost(d) or (d in RM and mlost(d)):
+                sig = "C05:opaque-child-not-a-manifest" if (not lost(d) and opaque_listed(d)) else "C05:retained-removed"
                 ctx.violation("collection removed %s, referenced (transitively) by a retained manifest (tagged, young, or untagged with untagged collection off) or a referrer of one" % d[:19],
-                              hist(digest=d), "C05:retained-removed")
+                              hist(digest=d), sig)
         for s_, lst in pre["refs"].items():
             if s_ in RM and pre["blob"].get(s_) == 200 and post["blob"].get(s_) == 200:
                 gone = set(lst) - set(post["refs"].get(s_, []))
@@ -92,7 +100,7 @@ def oracle(ctx, case, io):
             for d in sorted(pre["man"]):
                 # artifacts (manifests with a subject) follow the referrers policy: covered by the clause above
                 if mlost(d) and not gg["man"].get(d, {}).get("subject"):
-                    sig = "C05:orphaned-child-collected" if orphan(d) else "C05:untagged-removed"
+                    sig = "C05:orphaned-child-collected" if orphan(d) else ("C05:opaque-child-not-a-manifest" if opaque_listed(d) else "C05:untagged-removed")
                     ctx.violation("untagged collection is off but manifest %s was removed" % d[:19], hist(digest=d), sig)
         # younger than the grace period
         if (pol.get("grace_ms") or 3600000) >= 0:
@@ -101,7 +109,7 @@ def oracle(ctx, case, io):
                     ctx.violation("collection removed blob %s which is younger than the grace period" % d[:19], hist(digest=d), "C05:young-removed")
                 elif mlost(d) and not gg["man"].get(d, {}).get("subject"):
                     # (an artifact follows the referrers policy of its subject; its bytes stay, checked above)
-                    sig = "C05:orphaned-child-collected" if orphan(d) else "C05:young-manifest-removed"
+                    sig = "C05:orphaned-child-collected" if orphan(d) else ("C05:opaque-child-not-a-manifest" if opaque_listed(d) else "C05:young-manifest-removed")
                     ctx.violation("collection removed manifest %s which is younger than the grace period" % d[:19], hist(digest=d), sig)
 
 
